@@ -56,13 +56,13 @@ GhostSMTSolver::attachClause(CRef in_clause)
     if (c.learnt())
         return;
 
+    // Atoms are declared to the theories only when solving starts, after the clauses have been attached: the
+    // occurrences of every literal are recorded; isGhost() looks at them only for declared atoms.
     for (unsigned i = 0; i < c.size(); i++) {
         Lit l = c[i];
-        if (theory_handler.isDeclared(var(l))) {
-            int idx = toInt(l);
-            assert(idx < static_cast<int>(thLitToClauses.size()));
-            thLitToClauses[idx].push(in_clause);
-        }
+        int idx = toInt(l);
+        assert(idx < static_cast<int>(thLitToClauses.size()));
+        thLitToClauses[idx].push(in_clause);
     }
 }
 
